@@ -9,3 +9,48 @@ package proofsvalidator
 //@   ensures [iff] result == (exists i :: 0 <= i && i < len(members) && members[i].Id == memberId)
 //@   loop range members
 //@     invariant [none-so-far] forall i :: 0 <= i && i < $i ==> members[i].Id != memberId
+
+// The leader function handed in by the term: assumed to compute the leader of the committee passed alongside it; the
+// only closure passed by the library is verified against this in termincommittee (isViewChangeValid$1), and the call
+// site asserts that the committee argument is the term's committee.
+//@ dep param:proofsvalidator.ValidatePreparedProof.calcLeaderId
+//@   params view
+//@   pure
+//@   ensures result == LeaderFn($fn, view)
+
+//@ pred PPRef(p *protocol.PreparedProof) = p.PreprepareBlockRef()
+//@ pred PRef(p *protocol.PreparedProof) = p.PrepareBlockRef()
+
+//@ func ValidatePreparedProof
+//@   props C08 C07 C09
+//@   requires len(committeeMembers) >= 1 && SumMW(committeeMembers, len(committeeMembers)) < 2^64
+//@   ensures [empty-proof-is-valid] (preparedProof == nil || len(preparedProof.Raw()) == 0) ==> result
+//@   ensures [sound.height] result && preparedProof != nil && len(preparedProof.Raw()) > 0 ==> preparedProof.PreprepareBlockRef().BlockHeight() == targetHeight && preparedProof.PrepareBlockRef().BlockHeight() == targetHeight
+//@   ensures [sound.earlier-view] result && preparedProof != nil && len(preparedProof.Raw()) > 0 ==> preparedProof.PreprepareBlockRef().View() < targetView && preparedProof.PrepareBlockRef().View() == preparedProof.PreprepareBlockRef().View()
+//@   ensures [sound.one-hash] result && preparedProof != nil && len(preparedProof.Raw()) > 0 ==> preparedProof.PrepareBlockRef().BlockHash() == preparedProof.PreprepareBlockRef().BlockHash()
+//@   ensures [sound.signed-types] result && preparedProof != nil && len(preparedProof.Raw()) > 0 ==> preparedProof.PreprepareBlockRef().MessageType() == protocol.LEAN_HELIX_PREPREPARE && preparedProof.PrepareBlockRef().MessageType() == protocol.LEAN_HELIX_PREPARE
+//@   ensures [sound.proposal-signed-by-leader] result && preparedProof != nil && len(preparedProof.Raw()) > 0 ==>
+//@     | VerifiedMsg(keyManager, preparedProof.PreprepareBlockRef().BlockHeight(), preparedProof.PreprepareBlockRef().Raw(), preparedProof.PreprepareSender().MemberId(), preparedProof.PreprepareSender().Signature())
+//@     | && preparedProof.PreprepareSender().MemberId() == LeaderFn(calcLeaderId, preparedProof.PreprepareBlockRef().View())
+//@   ensures [sound.prepares-signed] result && preparedProof != nil && len(preparedProof.Raw()) > 0 ==> (forall k :: 0 <= k && k < seq_len(preparedProof, "PrepareSenders") ==>
+//@     | VerifiedMsg(keyManager, preparedProof.PrepareBlockRef().BlockHeight(), preparedProof.PrepareBlockRef().Raw(), seq_at(preparedProof, "PrepareSenders", k).MemberId(), seq_at(preparedProof, "PrepareSenders", k).Signature()))
+//@   ensures [sound.prepares-from-other-members] result && preparedProof != nil && len(preparedProof.Raw()) > 0 ==> (forall k :: 0 <= k && k < seq_len(preparedProof, "PrepareSenders") ==>
+//@     | seq_at(preparedProof, "PrepareSenders", k).MemberId() != preparedProof.PreprepareSender().MemberId()
+//@     | && (exists i :: 0 <= i && i < len(committeeMembers) && committeeMembers[i].Id == seq_at(preparedProof, "PrepareSenders", k).MemberId()))
+//@   ensures [sound.prepares-distinct] result && preparedProof != nil && len(preparedProof.Raw()) > 0 ==> (forall j, k :: 0 <= j && j < k && k < seq_len(preparedProof, "PrepareSenders") ==>
+//@     | seq_at(preparedProof, "PrepareSenders", j).MemberId() != seq_at(preparedProof, "PrepareSenders", k).MemberId())
+//@   ensures [sound.quorum] result && preparedProof != nil && len(preparedProof.Raw()) > 0 ==> len(senderIds) == seq_len(preparedProof, "PrepareSenders") + 1
+//@     | && (forall k :: 0 <= k && k < seq_len(preparedProof, "PrepareSenders") ==> senderIds[k] == seq_at(preparedProof, "PrepareSenders", k).MemberId())
+//@     | && senderIds[len(senderIds) - 1] == preparedProof.PreprepareSender().MemberId()
+//@     | && SW(senderIds, committeeMembers, len(committeeMembers)) >= Qz(SumMW(committeeMembers, len(committeeMembers)))
+//@   loop iter pSendersIter
+//@     invariant [src] iter_src(pSendersIter) == preparedProof
+//@     invariant [pos] iter_pos(pSendersIter) == len(pSenders) && iter_pos(pSendersIter) <= seq_len(preparedProof, "PrepareSenders") && !isnil(pSenders)
+//@     invariant [elems] forall k :: 0 <= k && k < len(pSenders) ==> pSenders[k] == seq_at(preparedProof, "PrepareSenders", k)
+//@   loop range pSenders
+//@     invariant [ids] len(senderIds) == len(pSenders) && (forall k :: 0 <= k && k < $i ==> senderIds[k] == pSenders[k].MemberId())
+//@   loop range pSenders
+//@     invariant [set] set != nil && (forall x Str :: has(set, x) == (exists k :: 0 <= k && k < $i && content(pSenders[k].MemberId()) == x))
+//@     invariant [signed] forall k :: 0 <= k && k < $i ==> VerifiedMsg(keyManager, pBlockRef.BlockHeight(), pBlockRef.Raw(), pSenders[k].MemberId(), pSenders[k].Signature())
+//@     invariant [others] forall k :: 0 <= k && k < $i ==> pSenders[k].MemberId() != leaderFromPPMessage && (exists i :: 0 <= i && i < len(committeeMembers) && committeeMembers[i].Id == pSenders[k].MemberId())
+//@     invariant [distinct] forall j, k :: 0 <= j && j < k && k < $i ==> pSenders[j].MemberId() != pSenders[k].MemberId()
